@@ -7,81 +7,7 @@
 use crate::nat::{pow5, Nat};
 use std::cmp::Ordering;
 
-#[derive(Clone, Copy, Debug, PartialEq, Eq, Hash)]
-pub enum Fmt {
-    F32,
-    F64,
-}
-
-impl Fmt {
-    /// explicit fraction bits
-    pub fn mbits(self) -> u32 {
-        match self {
-            Fmt::F32 => 23,
-            Fmt::F64 => 52,
-        }
-    }
-    pub fn ebits(self) -> u32 {
-        match self {
-            Fmt::F32 => 8,
-            Fmt::F64 => 11,
-        }
-    }
-    pub fn bias(self) -> i64 {
-        match self {
-            Fmt::F32 => 127,
-            Fmt::F64 => 1023,
-        }
-    }
-    /// bit pattern of +infinity
-    pub fn inf_bits(self) -> u64 {
-        ((1u64 << self.ebits()) - 1) << self.mbits()
-    }
-    pub fn max_finite_bits(self) -> u64 {
-        self.inf_bits() - 1
-    }
-    pub fn sign_bit(self) -> u64 {
-        1u64 << (self.mbits() + self.ebits())
-    }
-    pub fn name(self) -> &'static str {
-        match self {
-            Fmt::F32 => "f32",
-            Fmt::F64 => "f64",
-        }
-    }
-    /// crate's MAX_DIGITS constants are *not* used here; these are the maximum
-    /// numbers of significant digits of an exact expansion (informational).
-    pub fn max_sig_digits(self) -> usize {
-        match self {
-            Fmt::F32 => 112,
-            Fmt::F64 => 767,
-        }
-    }
-    /// (M, e): finite non-negative pattern = M * 2^e, integer significand form.
-    pub fn decode(self, bits: u64) -> (u64, i64) {
-        let mb = self.mbits();
-        let frac = bits & ((1u64 << mb) - 1);
-        let be = (bits >> mb) & ((1u64 << self.ebits()) - 1);
-        if be == 0 {
-            (frac, 1 - self.bias() - mb as i64)
-        } else {
-            (frac | (1u64 << mb), be as i64 - self.bias() - mb as i64)
-        }
-    }
-    pub fn is_nan(self, bits: u64) -> bool {
-        let b = bits & !self.sign_bit();
-        b > self.inf_bits()
-    }
-    pub fn is_subnormal(self, bits: u64) -> bool {
-        bits != 0 && bits < (1u64 << self.mbits())
-    }
-    pub fn hex(self, bits: u64) -> String {
-        match self {
-            Fmt::F32 => format!("0x{:08x}", bits),
-            Fmt::F64 => format!("0x{:016x}", bits),
-        }
-    }
-}
+pub use mlc::Fmt;
 
 /// A positive decimal: value = 0.d1 d2 d3 ... * 10^point, with d1 != 0 and the
 /// last digit != 0 (digit *values* 0..=9).  Zero is the empty digit string.
